@@ -330,7 +330,7 @@ def execute(plan):
             raise HarnessError(act)
         if not stop and run.sib is not None:
             out.oracle_checks += 1
-            d = N.same(run.sib_nf, N.norm_ann(run.sib))
+            d = N.same_strict(run.sib_nf, N.norm_ann(run.sib))
             if d is not None:
                 stop = run.violation('INDEP', ev.get('op') or act, 'sibling', f"INDEP: a copy taken earlier changed "
                                                                               f"across event {ev_i}: {d}", ev_i)
@@ -339,7 +339,7 @@ def execute(plan):
             # the peptide that was NOT worked on is exactly as before
             for h, nf0 in others.items():
                 out.oracle_checks += 1
-                d = N.same(nf0, N.norm_ann(run.objs[h]['x']))
+                d = N.same_strict(nf0, N.norm_ann(run.objs[h]['x']))
                 if d is not None:
                     stop = run.violation('INDEP', ev.get('op') or act, 'other-object',
                                          f"INDEP: event {ev_i} on {run.cur} changed the unrelated peptide {h}: {d}", ev_i)
@@ -470,7 +470,7 @@ def _do_op(run, ev_i, ev, PP):
             return True
     # the twin itself must be untouched by the copying variant
     out.oracle_checks += 1
-    d = N.same(before_nf, N.norm_ann(twin))
+    d = N.same_strict(before_nf, N.norm_ann(twin))
     if d is not None:
         if run.violation('ARG', op, 'twin', f"ARG: {op}(inplace=False) changed the object it was called on: {d}", ev_i):
             return True
@@ -616,7 +616,7 @@ def _do_split(run, ev_i, ev):
     except Exception as e:
         return run.violation('RAISES', 'split', type(e).__name__, f"RAISES: split raised {e!r}", ev_i)
     out.oracle_checks += 1
-    d = N.same(before, N.norm_ann(x))
+    d = N.same_strict(before, N.norm_ann(x))
     if d is not None:
         if run.violation('ARG', 'split', str(d).split(':')[0].strip('.') or 'value',
                          f"ARG: split (taking {take if take is not None else 'all'} pieces) changed the peptide: {d}", ev_i):
